@@ -657,31 +657,24 @@ func VerifC10MsgBytes() { c10MsgBytes(c10ExtraQuick) }
 func VerifC10MsgBytesDeep() { c10MsgBytes(c10ExtraDeep) }
 
 const (
-	c10ExtraQuick = 5
-	c10ExtraDeep  = 8
+	c10ExtraQuick = 4
+	c10ExtraDeep  = 7
 )
 
-// c10QuickPart groups (message, extension band) pairs into five parts of
-// similar cost so that the quick tier needs only five processes.
+// c10QuickPart splits the message types into two parts of similar cost so
+// that the quick tier needs only two processes.
 func c10QuickPart(msg, band int) int {
-	switch {
-	case msg == 3 && band == 3:
+	if msg == 3 || msg == 0 || msg == 1 {
 		return 0
-	case msg == 2 && band == 3, msg == 0, msg == 2 && band <= 1:
-		return 1
-	case msg == 4, msg == 1:
-		return 2
-	case msg == 5, msg == 2:
-		return 3
 	}
-	return 4 // ChannelReestablish bands 0-2
+	return 1
 }
 
 func c10MsgBytes(emax int) {
 	c10Config()
 	part := -1
 	if emax == c10ExtraQuick {
-		part = vChoice("part", 5)
+		part = vChoice("part", 2)
 	}
 	i := vChoice("msg", c10NumMsgs)
 	spec := c10MsgTable(i)
